@@ -133,7 +133,7 @@ PLANS["C03"] = dict(
         gen=dict(module="MC_Verifier_C03H",
                  cfg=lambda tier, seed: mc_cfg(["Inv_C03H", "Inv_Stateless", "Inv_Refines", "Inv_Frame", "Inv_Emit"], consts=["HistLen = 2", "MaxList = 2", "Wide = TRUE" if tier == "thorough" else "Wide = FALSE"]),
                  select=slicer(8000)),
-        drive=dict(driver="stores-history"),
+        drive=dict(driver="stores-history", race=True),
         validate=dict(module="Trace_VStoresHist", cfg=trace_cfg()),
     )],
 )
@@ -256,6 +256,19 @@ C14_TRACE_CFG = cfg_lines("CONSTANTS", " Writers <- TWriters", " Readers <- TRea
                           "INVARIANT ReadSafe", "INVARIANT VisibleComplete", "INVARIANT Fresh", "INVARIANT TempNeverEntry",
                           "POSTCONDITION Consumed", "CHECK_DEADLOCK FALSE")
 
+def crl_large_cases(tier, seed):
+    """a few bundles of tens of megabytes (a legal CRL may revoke hundreds of thousands of certificates): stored and read back whole"""
+    B = lambda base, delta: {"base": base, "delta": delta, "baseFresh": True, "deltaFresh": delta != 0}
+    op = lambda o, u, b=None, k="": {"op": o, "u": u, "b": b or {"base": 0, "delta": 0, "baseFresh": False, "deltaFresh": False}, "k": k}
+    cases = [dict(ops=[op("Set", "u1", B(1, 0)), op("Get", "u1"), op("Set", "u1", B(2, 0)), op("Get", "u1")], large=1250),     # one CRL of about 27 MB (its cache file: about 36 MB)
+             dict(ops=[op("Set", "u1", B(2, 3)), op("Get", "u1"), op("Get", "u2")], large=640),                                 # base and delta of about 14 MB each
+             dict(ops=[op("Set", "u2", B(5, 0)), op("Get", "u2")], large=30)]
+    return [{"in": c} for c in cases]
+
+
+C15_TRACE = cfg_lines("CONSTANTS", " URLs <- TURLs", ' Bundles = {}', ' Corruptions = {}', ' TraceFile = "trace.ndjson"', "SPECIFICATION Spec",
+                      "POSTCONDITION AllConsumed", "CHECK_DEADLOCK FALSE")
+
 PLANS["C14"] = dict(
     level_text="TLC explores every interleaving of the file-system steps of concurrent Set calls (create temp, write chunks, close, rename, return), "
                "crashes at every point and chunk-wise reads in bounded instances of CRLCache.tla and checks ReadSafe, VisibleComplete, "
@@ -289,8 +302,11 @@ PLANS["C14"] = dict(
                       select=take_all),
              drive=dict(driver="crl-sched"),
              validate=dict(module="Trace_CRLCache", cfg=C14_TRACE_CFG)),
+        # complete also when the bundle is very large (sequential model of the cache: what is stored is what is read)
+        dict(name="large-bundles", static_cases=crl_large_cases, drive=dict(driver="crl-seq", extra=lambda tier, seed: ["-workers", "2"]),
+             validate=dict(module="Trace_CRLCacheSeq", cfg=C15_TRACE)),
         dict(name="free-running",
-             drive=dict(driver="crl-stress"),
+             drive=dict(driver="crl-stress", race=True),
              validate=dict(module="Trace_CRLCacheFree", searching=True, recheck=False, jvm="-Dtlc2.tool.queue.IStateQueue=StateDeque",
                            cfg=cfg_lines("CONSTANTS", " Writers <- TWriters", " Readers <- TReaders", " URLs <- TURLs", " WUrl <- TWUrl", " Sets = 3",
                                          " Gets = 8", " Chunks = 1", ' Mutant = "none"', ' TraceFile = "trace.ndjson"', "SPECIFICATION TSpec",
@@ -312,8 +328,6 @@ def c15_cfg_wide(tier, seed):
     return mc_cfg(["Inv_C15", "Inv_Frame", "Inv_NoEffect", "Inv_Emit"], consts=consts)
 
 
-C15_TRACE = cfg_lines("CONSTANTS", " URLs <- TURLs", ' Bundles = {}', ' Corruptions = {}', ' TraceFile = "trace.ndjson"', "SPECIFICATION Spec",
-                      "POSTCONDITION AllConsumed", "CHECK_DEADLOCK FALSE")
 
 PLANS["C15"] = dict(
     level_text="TLC enumerates every history of store / refused store / read / corruption operations (depth 3 over 3 URLs x 5 bundles x 7 "
@@ -338,7 +352,7 @@ PLANS["C15"] = dict(
              gen=dict(module="MC_CRLCache_C14", cfg=c14_cfg("w3r2", 2, 2, 1, emit=True, maxhist=60, props=(), view=False), workers=1,
                       extra=lambda tier, seed: ["-simulate", "num=" + ("1500" if tier == "thorough" else "300"), "-depth", "70", "-seed", str(seed + 7)],
                       select=take_all),
-             drive=dict(driver="crl-sched"),
+             drive=dict(driver="crl-sched", race=True),
              validate=dict(module="Trace_CRLCache", cfg=C14_TRACE_CFG)),
     ],
 )
